@@ -6,6 +6,7 @@ import (
 	"go/token"
 	"go/types"
 	"regexp"
+	"sort"
 	"strings"
 
 	"golang.org/x/tools/go/ssa"
@@ -405,6 +406,68 @@ func runC14(c *Ctx) {
 		})
 		r.Add(core.Obligation{Rule: "router-fields", Key: "router-fields every valid advertisement reaches the table", Func: core.FuncName(pp), Pos: c.P.Pos(core.PosOf(site.(ssa.Instruction))), Status: us,
 			Basis: "every path from the advertisement's IsValid to a nil return passes findOrCreateRouter", Detail: det})
+	}
+	// the length classes of the route information option are those of RFC 4191 2.3: prefix length 0, 1..64 (two or three
+	// units), 65..128 (three units). Every comparison of the prefix length with a constant in RouteInformation.unmarshal
+	// cuts the range at 1, 65 or 129 (a class boundary at 64 refuses the usual encoding of a /64 route, and the router
+	// is learned without it)
+	if fn := c.P.Method("", "RouteInformation", "unmarshal"); fn != nil {
+		cuts := map[int64]bool{}
+		core.EachInstr(fn, func(i ssa.Instruction) {
+			bo, ok := i.(*ssa.BinOp)
+			if !ok {
+				return
+			}
+			x, y, op := bo.X, bo.Y, bo.Op
+			if _, isC := x.(*ssa.Const); isC {
+				x, y = y, x
+				switch op {
+				case token.LSS:
+					op = token.GTR
+				case token.GTR:
+					op = token.LSS
+				case token.LEQ:
+					op = token.GEQ
+				case token.GEQ:
+					op = token.LEQ
+				}
+			}
+			cst, isC := y.(*ssa.Const)
+			if !isC || cst.Value == nil || norm(stripConv(x)) != "arg0[2]" {
+				return
+			}
+			k, exact := constant.Int64Val(cst.Value)
+			if !exact {
+				return
+			}
+			switch op {
+			case token.LSS, token.GEQ:
+				cuts[k] = true
+			case token.LEQ, token.GTR:
+				cuts[k+1] = true
+			case token.EQL, token.NEQ:
+				cuts[k+1] = true
+			}
+		})
+		var got []string
+		okCuts := len(cuts) > 0
+		for k := range cuts {
+			got = append(got, fmt.Sprint(k))
+			if k != 1 && k != 65 && k != 129 {
+				okCuts = false
+			}
+		}
+		sort.Strings(got)
+		if !cuts[65] {
+			okCuts = false
+		}
+		st, det := core.Proved, ""
+		if !okCuts {
+			st = core.Violated
+			det = "RouteInformation.unmarshal divides the prefix lengths at " + strings.Join(got, ", ") + " (first value of the upper class), RFC 4191 at 1, 65, 129: an option whose prefix length falls between the two is held to the wrong length rule and refused (a /64 route in two units), so the learned router lacks a route a reference decoder reads"
+		}
+		r.Add(core.Obligation{Rule: "router-fields", Key: "router-fields RouteInformation length classes are 0, 1..64, 65..128", Func: core.FuncName(fn), Pos: c.P.Pos(fn.Pos()), Status: st,
+			Basis: "every comparison of the prefix length with a constant cuts at 1, 65 or 129: " + strings.Join(got, ", "), Detail: det})
 	}
 	// what an advertisement from address A says is recorded for A: findOrCreateRouter hands back the entry stored under
 	// the address it was asked for - the result of LANRouters[ip], or the new entry it stores under ip - never another
